@@ -148,7 +148,29 @@ fn read_all(bm: &AtomicBitmap, upto: usize) -> BTreeSet<usize> {
     in_mode(Mode::Oracle, || (0..upto).filter(|&i| bm.is_bit_set(i)).collect())
 }
 
+/// Pages the operation names: the set it must make dirty / the set it may clear.
+fn model_effect(byte_size: usize, ps: NonZeroUsize, op: &Op) -> (BTreeSet<usize>, BTreeSet<usize>) {
+    let ps = ps.get();
+    let n = byte_size.div_ceil(ps);
+    let range = |addr: usize, len: usize| -> BTreeSet<usize> {
+        if len == 0 || addr / ps >= n {
+            return BTreeSet::new();
+        }
+        let last = addr.saturating_add(len - 1) / ps;
+        (addr / ps..=last.min(n.saturating_sub(1))).collect()
+    };
+    let one = |i: usize| -> BTreeSet<usize> { if i < n { [i].into_iter().collect() } else { BTreeSet::new() } };
+    match op {
+        Op::Mark(v, o, l) => (range(v.base().wrapping_add(*o), *l), BTreeSet::new()),
+        Op::SetBit(i) => (one(*i), BTreeSet::new()),
+        Op::ResetRange(a, l) => (BTreeSet::new(), range(*a, *l)),
+        Op::ResetBit(i) => (BTreeSet::new(), one(*i)),
+        _ => (BTreeSet::new(), BTreeSet::new()),
+    }
+}
+
 /// Bits the operation sets when run alone on an empty bitmap / clears when run alone on a full one.
+#[allow(dead_code)]
 fn solo_effect(byte_size: usize, ps: NonZeroUsize, op: &Op) -> (BTreeSet<usize>, BTreeSet<usize>) {
     in_mode(Mode::Oracle, || {
         let empty = Arc::new(AtomicBitmap::new(byte_size, ps));
@@ -269,9 +291,12 @@ fn gen_op(g: &Geometry, hot: usize) -> Op {
         4 => Op::SetBit(gen_page(g, hot)),
         5 | 6 => {
             let page = gen_page(g, hot);
-            let len = match c.a(3) {
+            let len = match c.a(5) {
                 0 => 1,
                 1 => ps,
+                // ranges that start in one word and end in a later one
+                2 => ps * (2 + c.a(6) as usize),
+                3 => ps * (8 + c.a(70) as usize),
                 _ => 1 + c.a((2 * ps).min(4096) as u32) as usize,
             };
             Op::ResetRange(page * ps, len)
@@ -364,7 +389,9 @@ fn judge_c08(g: &Geometry, bm: &Arc<AtomicBitmap>, prog: &[Vec<Op>], res: &[Vec<
             if r.sim_abort {
                 continue;
             }
-            let (s, cl) = solo_effect(g.byte_size, g.ps, op);
+            // what the operation is owed to set / allowed to clear: the pages overlapping the range it
+            // names (the page-set model of C09), not whatever the implementation does when run alone
+            let (s, cl) = model_effect(g.byte_size, g.ps, op);
             if op.is_mark() {
                 any_mark = true;
                 for &b in &s {
